@@ -526,10 +526,9 @@ Section Transformers.
   Lemma gen_resource_has_kind secret g r : gen_resource secret g = Ok r -> has_kind r.
   Proof.
     unfold gen_resource, gen_node. destruct (String.eqb (pg_name g) ""); cbn [bind]; try discriminate.
-    destruct (mapM Generators.parse_literal (pg_literals g)); cbn [bind]; try discriminate.
+    destruct (gen_pairs g); cbn [bind]; try discriminate.
     destruct (Generators.validated_map a []); cbn [bind]; try discriminate.
-    destruct (negb secret && _); cbn [bind]; try discriminate.
-    intros H. inv H. unfold has_kind. cbn. discriminate.
+    intros H. inv H. unfold has_kind. cbn [r_node get_at app find_field String.eqb Ascii.eqb Bool.eqb]. discriminate.
   Qed.
 
   (* generators that only create (behaviour unspecified or create): merge / replace rewrite the data of an
